@@ -49,3 +49,30 @@ def sem_fixed():
     g.items = items
     g.make_entries()
     return g
+
+
+def graph_fixed():
+    """fixed inputs for the export checks (C03 / C11 / C13): one per known finding"""
+    g = Gen(0, "Fg", Profile(ts_only=True, placements=True))
+    items = []
+
+    def add(it):
+        it.derives = ["TS", "SerdeAttrs"]
+        it.serde = False
+        items.append(it)
+        return it
+
+    d = add(Item("FgDefault", "FgDefault", "named", fields=[Field("fg_d", prim("u8"))], export_to="fgd/"))
+    gen = add(Item("FgGen", "FgGen", "named", params=["T"], fields=[Field("fg_t", Ty("param", "T"))]))
+    gen.param_defaults = {"T": "FgDefault"}
+    gen.param_default_tys = {"T": user(d)}
+    add(Item("FgSplice", "FgSplice", "named", fields=[Field("fg_own", prim("i32")),
+                                                     Field("fg_flat", user(gen, prim("i32")), flatten=True)]))
+    e2 = add(Item("FgIntMap", "FgIntMap", "enum", tag="fgt", variants=[
+        Variant("FgH", "newtype", [Field(None, Ty("map", "BTreeMap", args=[prim("String"), prim("i32")]))]),
+        Variant("FgS", "struct", [Field("fg_s1", prim("bool"))])]))
+    add(Item("FgInlineIntMap", "FgInlineIntMap", "named", fields=[Field("fg_p", prim("i32")), Field("fg_e", user(e2), inline=True)],
+             export_to="fgshared/x.ts"))
+    g.items = items
+    g.make_entries(per_generic=1)
+    return g
